@@ -6,7 +6,7 @@
    abandoned after a partial write is re-sent from the start (C19_cancel_refuted; finding
    C19.flush_cancelled_after_partial_write). *)
 From ZV Require Import Framing.WriteConn Framing.WriteConnProofs Framing.Pipe Framing.PipeProofs
-                       Framing.ReadConn Framing.ReadConnProofs.
+                       Framing.ReadConn Framing.ReadConnProofs Framing.Ids.
 
 (* For every history of enqueue/send/flush, every schedule of partial kernel writes and dropped
    flush futures: unless a flush was dropped after the kernel had taken part of it, the bytes the
@@ -71,6 +71,17 @@ Proof.
   vm_compute. auto.
 Qed.
 Print Assumptions C19_cancel_refuted.
+
+(* connection identifiers are pairwise distinct under every interleaving of concurrent creations
+   (the counter is advanced by one atomic read-modify-write); with a separate load and store they
+   are not (witness) *)
+Theorem C19_ids_distinct : forall c sched, NoDup (map snd (run_ids c sched)).
+Proof. exact ids_distinct. Qed.
+Print Assumptions C19_ids_distinct.
+
+Theorem C19_ids_need_atomic_rmw : exists sched, ~ NoDup (map snd (run_nonatomic 0 [] sched)).
+Proof. exact ids_nonatomic_refuted. Qed.
+Print Assumptions C19_ids_need_atomic_rmw.
 
 Example C19_nonvacuous :
   (* partial writes of 1, 2, 1 bytes, a flush dropped before anything was written, then completion *)
